@@ -83,25 +83,21 @@ def parse_record(info, fname):
             if s == "}":
                 in_ctor = False
             continue
-        if s.startswith("["):
-            pend.append(s)
-            continue
-        m = re.match(r"public ([\w<>,\s\?\(\)]+?) (\w+) \{ (get;|get =>)", s)
-        if m:
-            dm = [a for a in pend if a.startswith("[DataMember")]
-            if dm:
-                wm = re.match(r'\[DataMember\(Name = "((?:[^"\\]|\\.)*)"\)\]', dm[0])
-                if not wm:
-                    raise Unparsed(f"{fname}: {dm[0]}")
-                ty, nullable = cs_type(m.group(1))
-                members.append({"wire": wm.group(1), "prop": m.group(2), "ty": ty, "nullable": nullable,
-                                "null_ignore": any("NullValueHandling.Ignore" in a for a in pend),
-                                "proposed": any(a.startswith("[Proposed") for a in pend)})
-            pend = []
-            continue
-        if s.startswith("private ") or s in ("{", "}", ")", ");"):
-            pend = []
-            continue
+        continue
+    # members: attributes, then `public <type> <Name> { get ...` - matched on the comment-free text of the body, so that the layout
+    # (attributes on one line or several, in any order; the accessor block on the same line or below) does not matter
+    text = "\n".join(l for l in body if not l.strip().startswith("///"))
+    for m in re.finditer(r"((?:\[(?:[^\[\]\n]|\[[^\[\]\n]*\])*\]\s*)*)public\s+([\w<>,\s\?\(\)]+?)\s+(\w+)\s*\{\s*get\b", text):
+        pend = re.findall(r"\[(?:[^\[\]\n]|\[[^\[\]\n]*\])*\]", m.group(1))
+        dm = [a for a in pend if a.startswith("[DataMember")]
+        if dm:
+            wm = re.match(r'\[DataMember\(Name = "((?:[^"\\]|\\.)*)"\)\]', dm[0])
+            if not wm:
+                raise Unparsed(f"{fname}: {dm[0]}")
+            ty, nullable = cs_type(m.group(2))
+            members.append({"wire": wm.group(1), "prop": m.group(3), "ty": ty, "nullable": nullable,
+                            "null_ignore": any("NullValueHandling.Ignore" in a for a in pend),
+                            "proposed": any(a.startswith("[Proposed") for a in pend)})
     for mem in members:
         mem["assigned"] = mem["prop"] in assigned
     a = info["attrs"]
